@@ -786,10 +786,10 @@ class Engine:
             q = self.c.callees.get(f.id)
             if q:
                 return ("contract", q, None)
-            if f.id in self.classes.classes and f"{self.c.class_module(f.id)}.{f.id}.__init__" in self.reg:
-                return ("ctor", f.id, None)
-            if f.id in self.classes.classes:
-                return ("ctor", f.id, None)
+            # a source class name may be seen through another typed view (two sidecars with a view of one name)
+            vname = (getattr(self.c, "class_views", None) or {}).get(f.id, f.id)
+            if vname in self.classes.classes:
+                return ("ctor", vname, None)
             return ("builtin", f.id, None)
         if isinstance(f, ast.Attribute):
             if isinstance(f.value, ast.Call) and isinstance(f.value.func, ast.Name) and f.value.func.id == "super":
@@ -1002,6 +1002,19 @@ class Engine:
                 self.st.heap[k] = fresh("havoc_" + k, a.sort())
                 self.heap_array_facts(k, self.st.heap[k])
                 self.st.written.add(k)
+            return
+        if m.startswith("field(") and m.endswith(")"):
+            # the whole map of one field (of every object): for writes to objects reached through a container
+            cls_, fld_ = m[6:-1].split(".")
+            dcl = self.classes.field(cls_, fld_)
+            if dcl is None:
+                raise Unsupported(f"modifies clause {m}: no such field")
+            key = f"{dcl[0]}.{fld_}"
+            for k in (key, key + "#none"):
+                if k in self.st.heap or k == key:
+                    a = self.harr(k, z3.IntSort(), T.sort_of(dcl[1]) if k == key else z3.BoolSort())
+                    self.st.heap[k] = fresh("havoc_" + k, a.sort())
+                    self.st.written.add(k)
             return
         if m.startswith(("list(", "set(", "dict(")):
             kind, inner = m.split("(", 1)
@@ -1553,6 +1566,7 @@ class Engine:
             ety = v.ty.args[0]
             return ["list.len", f"list.elem.{T.sort_name(ety)}", "list.elemnone"]
 
+
         try:
             for n in ast.walk(ast.Module(body=list(body), type_ignores=[])):
                 if isinstance(n, ast.Attribute) and isinstance(n.ctx, ast.Store):
@@ -2005,11 +2019,18 @@ class Engine:
         if c.modifies is None:
             return
         allowed = {}   # key -> list of refs allowed to change ; '*' for anything
+        whole = set()  # field maps that may change for every object: field(Class.f)
         self.with_state(st)
         for m in c.modifies:
             m = m.strip()
             if m == "heap":
                 return
+            if m.startswith("field(") and m.endswith(")"):
+                cls_, fld_ = m[6:-1].split(".")
+                dcl = self.classes.field(cls_, fld_)
+                whole.add(f"{dcl[0]}.{fld_}")
+                whole.add(f"{dcl[0]}.{fld_}#none")
+                continue
             if m.startswith(("list(", "set(", "dict(")):
                 kind, inner = m.split("(", 1)
                 v = self.eval_old_raw(inner[:-1])
@@ -2034,7 +2055,7 @@ class Engine:
                         allowed.setdefault(f"{cl}.{f}", []).append(o.t)
                         allowed.setdefault(f"{cl}.{f}#none", []).append(o.t)
         for key in sorted(st.written):
-            if key in ("tag",):
+            if key in ("tag",) or key in whole:
                 continue
             new = st.heap[key]
             old = self.old.heap.get(key)
